@@ -26,7 +26,7 @@ def explain(line):
     nr = rest[0]; rs = [rest[1 + 5 * i: 6 + 5 * i] for i in range(nr)]
     probs = []
     if x != y: probs.append("shared pair differs while everything is paused: x=%d y=%d" % (x, y))
-    fl = [r for r in rs if r[3] < 0]
+    fl = [r for r in rs if r[3] == -1]
     s = sum(r[3] for r in rs if r[3] >= 0) + (limit if fl else 0)
     if x != s: probs.append("shared counter x=%d but the resources executed %d cycles in total: updates were lost or duplicated" % (x, s))
     for i in range(nw):
@@ -35,7 +35,8 @@ def explain(line):
         if not r[1]: probs.append("resource %d: join() did not return within 30 s after stop()" % i)
         if r[4] != 0: probs.append("resource %d saw a half-updated shared set (x <> y) in %d cycles" % (i, r[4]))
         if r[3] >= 0 and (r[0] != 5 or r[2] != 1): probs.append("resource %d after stop: state %d (5 = Stopped), retained data saved %d times" % (i, r[0], r[2]))
-        if r[3] < 0 and (r[0] != 4 or r[2] != 0): probs.append("resource %d did not answer while paused but is in state %d with %d saves" % (i, r[0], r[2]))
+        if r[3] == -2 and (r[0] != 5 or r[2] != 0): probs.append("resource %d was stopped while waiting at the start gate: state %d (5 = Stopped), %d saves" % (i, r[0], r[2]))
+        if r[3] == -1 and (r[0] != 4 or r[2] != 0): probs.append("resource %d did not answer while paused but is in state %d with %d saves" % (i, r[0], r[2]))
     if xe != x: probs.append("cycles ran after stop(): x went from %d to %d" % (x, xe))
     return probs
 
